@@ -16,6 +16,7 @@ import (
 	"github.com/getkin/kin-openapi/openapi3"
 	"github.com/getkin/kin-openapi/openapi3filter"
 	"github.com/getkin/kin-openapi/routers"
+	"github.com/getkin/kin-openapi/routers/gorillamux"
 )
 
 type C08Header struct {
@@ -538,6 +539,7 @@ func init() {
 			c08HeaderSpellings(meta)
 
 			c08FormResponses(meta)
+			c08StatusSent(meta)
 		}
 		meta.NCases = len(cases)
 		meta.Files = writeCases(outDir, "From KV Require Import Model.Base Model.Json Model.Schema Model.Lookup Model.Response Exec.C08Exec.", "c08case", "judge", terms, meta.Shard)
@@ -640,6 +642,72 @@ func c08HeaderSpellings(meta *Meta) {
 						}
 					}
 				}
+			}
+		}
+	}
+}
+
+// the status a response is checked under is the status that was sent: the first WriteHeader (or the implicit
+// 200 of a first Write) - later calls change nothing on the wire and nothing in the choice of the definition
+func c08StatusSent(meta *Meta) {
+	text := `{"openapi":"3.0.3","info":{"title":"t","version":"1"},"paths":{"/r":{"get":{"responses":{` +
+		`"200":{"description":"ok","content":{"application/json":{"schema":{"type":"object","required":["id"],"properties":{"id":{"type":"integer"}}}}}},` +
+		`"4XX":{"description":"client","content":{"application/json":{"schema":{"type":"object","required":["error"]}}}},` +
+		`"500":{"description":"no body"}}}}}}`
+	doc, err := openapi3.NewLoader().LoadFromData([]byte(text))
+	if err != nil {
+		return
+	}
+	router, err := gorillamux.NewRouter(doc)
+	if err != nil {
+		return
+	}
+	for _, tc := range []struct {
+		name      string
+		calls     []int // WriteHeader calls before the body; 0 = no explicit call
+		after     []int // WriteHeader calls after the body
+		body      string
+		wantValid bool
+		wantCode  int
+	}{
+		{"200 good", []int{200}, nil, `{"id":1}`, true, 200}, {"200 bad", []int{200}, nil, `{"id":"x"}`, false, 200},
+		{"200 bad then 500", []int{200, 500}, nil, `{"id":"x"}`, false, 200}, {"200 good then 404", []int{200, 404}, nil, `{"id":1}`, true, 200},
+		{"implicit 200 bad, 500 after the body", nil, []int{500}, `{"id":"x"}`, false, 200}, {"implicit 200 good, 404 after the body", nil, []int{404}, `{"id":1}`, true, 200},
+		{"404 good", []int{404}, nil, `{"error":"e"}`, true, 404}, {"404 then 200", []int{404, 200}, nil, `{"id":1}`, false, 404},
+	} {
+		for _, strict := range []bool{false, true} {
+			var logged []string
+			v := openapi3filter.NewValidator(router, openapi3filter.Strict(strict), openapi3filter.OnLog(func(_ context.Context, msg string, err error) { logged = append(logged, msg) }))
+			h := http.HandlerFunc(func(w http.ResponseWriter, _ *http.Request) {
+				w.Header().Set("Content-Type", "application/json")
+				for _, c := range tc.calls {
+					w.WriteHeader(c)
+				}
+				w.Write([]byte(tc.body))
+				for _, c := range tc.after {
+					w.WriteHeader(c)
+				}
+			})
+			rec := httptest.NewRecorder()
+			desc := map[string]any{"handler": tc.name, "strict": strict}
+			meta.Histogram["status-sent cases"]++
+			if p := catchPanic(func() { v.Middleware(h).ServeHTTP(rec, httptest.NewRequest("GET", "/r", nil)) }); p != nil {
+				meta.GoViolation = append(meta.GoViolation, map[string]any{"signature": "status-sent:panic", "cases": []any{desc}, "go_observation": fmt.Sprint(p), "judgement": "panic"})
+				continue
+			}
+			invalid := false
+			for _, m := range logged {
+				if strings.Contains(m, "invalid response") {
+					invalid = true
+				}
+			}
+			if strict {
+				invalid = rec.Code == 500 && tc.wantCode != 500
+			}
+			if invalid == tc.wantValid {
+				meta.GoViolation = append(meta.GoViolation, map[string]any{"signature": "status-sent:response-checked-under-another-status", "cases": []any{desc},
+					"go_observation": fmt.Sprintf("reported invalid=%v, client status %d, log %v", invalid, rec.Code, logged),
+					"judgement":      fmt.Sprintf("the response sent (status %d) satisfies its definition: %v", tc.wantCode, tc.wantValid)})
 			}
 		}
 	}
